@@ -429,3 +429,6 @@ V("c08-uncertainty-not-tested", "C08", {"rule": "C08", "contains": "uncertainty"
   (GST, "        if not is_positive_semidefinite(\n            cov / self._config.hbar + 1j * symplectic_form(d)\n        ):", "        if False:"))
 V("c08-preserving-hbar-alias", "C08", "silent",
   (GST, "        if not is_positive_semidefinite(\n            cov / self._config.hbar + 1j * symplectic_form(d)\n        ):", "        hbar = self._config.hbar\n        if not is_positive_semidefinite(\n            cov / hbar + 1j * symplectic_form(d)\n        ):"))
+V("c03-denominator-len-samples", "C03", {"rule": "C03a", "contains": "denominator"},
+  (GSS, "    return [\n        Branch(state=None, outcome=outcome, frequency=Fraction(1, shots))\n        for outcome in samples\n    ]\n\n\ndef _get_particle_number_measurement_samples(",
+   "    total = len(samples) + 1\n    return [\n        Branch(state=None, outcome=outcome, frequency=Fraction(1, total))\n        for outcome in samples\n    ]\n\n\ndef _get_particle_number_measurement_samples("))
